@@ -66,6 +66,7 @@ def run_case(case, ctx):
         opts.update(nc=[13, 20, 32][int(rng.integers(0, 3))], shanks=int(rng.integers(0, 3)), interleave=bool(rng.random() < 0.6))
     if rng.random() < 0.15:
         opts['pos_scale'] = 1e-6            # a probe described in metres
+    opts['exact_amps'] = bool(rng.random() < 0.3)      # templates with a channel at exactly half the peak and an exactly silent channel
     opts['wmi_only'] = bool(opts['wm'] and rng.random() < 0.25)      # only whitening_mat_inv.npy is shipped
     if case.get('large'):
         opts.update(ns=[100000, 100001, 50000, 150000][case['seed'][1] % 4],       # also exact multiples of the batch size
@@ -86,6 +87,14 @@ def run_case(case, ctx):
     if spec.pc_feature_ind is not None and spec.pc_feature_ind.shape[1] >= 2 and case['seed'][-1] % 6 == 4:
         # a template whose column table lists one channel twice (both columns carry weight in the depth formula)
         spec.pc_feature_ind[0, 1] = spec.pc_feature_ind[0, 0]
+    if case['seed'][-1] % 4 == 3 and opts['features'] != 'none' and spec.names == 'ks':
+        # stale ALF-style result files of an earlier export lie in the dataset folder; the summaries are computed, not read
+        import io
+        for fn, arr in (('spikes.depths.npy', np.full(spec.n_spikes, 15.4)), ('clusters.depths.npy', np.full(spec.n_templates, 7.0)),
+                        ('clusters.peakToTrough.npy', np.full(spec.n_templates, 0.5)), ('clusters.channels.npy', np.zeros(spec.n_templates, dtype=np.int32))):
+            bio = io.BytesIO()
+            np.save(bio, arr)
+            spec.extra_files[fn] = bio.getvalue()
     if case['seed'][-1] % 5 == 3:
         # every spike of one template has a stored amplitude of exactly 0: its mean is 0 (it has spikes), not NaN
         spec.amplitudes[spec.spike_templates == spec.spike_templates[0]] = 0
